@@ -19,6 +19,7 @@ CONSTANTS
   Order <- OrderPubFirst
   CheckAccepts = TRUE
   SimCommits = FALSE
+  NextTwoLoads = FALSE
 SYMMETRY Sym
 INVARIANT VisibleImpliesComplete
 CHECK_DEADLOCK FALSE
